@@ -6,6 +6,8 @@ Line-protocol handlers for the date-time bookkeeping model (exact Rat execution;
 `dtg.run F|S <ref|-> <t…> | <op…>`   ops: `set:<rat>` `set:-` `set:bad` `copy` `read`
    reply `ok <state0> <res1>=<state1> …`, state = `ref;t,t,…;cache;start;end` (`-` = None), res = `ok` | `err:<kind>`;
    `err empty` when the constructor rejects the input.
+`dtg.runx F|S <ref|-> <t…> | <op…>`  as `dtg.run`, with the additional op `keep:<0/1 mask>` (`modify`: the retained samples);
+   reply `ok <state0> <state1> …` (states only).
 `dtg.refs <ref|->…`   reply `ok <defined> <same> <blocked> <ref|->`
 -/
 namespace Qats.Driver.Dtg
@@ -29,6 +31,15 @@ def op? (s : String) : Option (Op Rat) :=
   else if s.startsWith "set:" then (parseRat? (s.drop 4).toString).map fun x => .set (.inst x)
   else none
 
+def opx? (s : String) : Option (OpX Rat) :=
+  if s.startsWith "keep:" then some (.keep ((s.drop 5).toString.toList.map (· == '1')))
+  else (op? s).map .base
+
+/-- All intermediate states of a history with in-place processing. -/
+def traceX (s : St Rat) : List (OpX Rat) → List (St Rat)
+  | [] => []
+  | op :: ops => stepX s op :: traceX (stepX s op) ops
+
 def showErr : Option Err → String
   | none => "ok"
   | some .badType => "err:type"
@@ -48,6 +59,17 @@ def handle : List String → Option String
     | none => some "err empty"
     | some s0 =>
       some (joinWith " " ("ok" :: showState s0 :: (trace s0 ops).map fun (s, e) => showErr e ++ "=" ++ showState s))
+  | "dtg.runx" :: kind :: ref :: rest => do
+    let (ts, ops) ← (match rest.span (· ≠ "|") with
+      | (a, _ :: b) => some (a, b)
+      | _ => none)
+    let ref ← optRat? ref
+    let ts ← parseRats? ts
+    let ops ← ops.mapM opx?
+    let s0 := if kind == "S" then ofStamps ts ref else ofFloats ts ref
+    match s0 with
+    | none => some "err empty"
+    | some s0 => some (joinWith " " ("ok" :: showState s0 :: (traceX s0 ops).map showState))
   | "dtg.refs" :: refs => do
     let refs ← refs.mapM optRat?
     some (joinWith " " ["ok", toString (refDefined refs), toString (sameRef refs), toString (refBlocked refs),
